@@ -672,6 +672,56 @@ func ruleTreeShrinkZero(c *Ctx, r *R) {
 				}
 			})
 			key := "tree.btree." + is.fn + "|" + xp + ".n-lowered#" + itoa(k)
+			// path-sensitive: on EVERY path through this lowering to a return the slot was cleared (before or after it);
+			// a clearing that only happens on one branch after the lowering does not count
+			{
+				const (
+					zL = 1 << iota
+					zK
+					zV
+				)
+				pfz := &PF{N: 8}
+				pfz.Instr = func(f *ssa.Function, in2 ssa.Instruction, q int) (StateSet, bool) {
+					if in2 == ssa.Instruction(st) {
+						return ss(q | zL), true
+					}
+					arrOf := func() string {
+						switch y := in2.(type) {
+						case *ssa.Store:
+							if nd, arr, ok := nodeArray(y.Addr); ok && path(nd) == xp && isZeroValue(y.Val) {
+								return arr
+							}
+						case *ssa.Call:
+							cal := staticCallee(&y.Call)
+							if cal != nil && (fname(cal) == "removeOne" || fname(cal) == "Clear") {
+								if nd, arr, ok := nodeArray(y.Call.Args[0]); ok && path(nd) == xp {
+									return arr
+								}
+							}
+						}
+						return ""
+					}
+					switch arrOf() {
+					case "keys":
+						return ss(q | zK), true
+					case "values":
+						return ss(q | zV), true
+					}
+					return 0, false
+				}
+				for _, e := range pfz.Exits(fn, ss(0)) {
+					e.States.each(func(q int) {
+						if q&zL != 0 {
+							if q&zK == 0 {
+								zero["keys"] = false
+							}
+							if q&zV == 0 {
+								zero["values"] = false
+							}
+						}
+					})
+				}
+			}
 			missing := []string{}
 			for _, arr := range []string{"keys", "values"} {
 				if !zero[arr] {
